@@ -34,6 +34,7 @@ type Node struct {
 	pol     *policy.Policy
 	tmu     sync.Mutex
 	timers  []*timerEntry
+	recovered bool // RecoverSwaps ran in this process (the first process of a trace has nothing to recover)
 }
 
 type timerEntry struct {
@@ -180,6 +181,15 @@ func (s *logStore) UpdateData(sm *swap.SwapStateMachine) error {
 	s.w.after(s.n, "persist")
 	return nil
 }
+// optional capabilities of the real store are forwarded (e.g. the channel lookup used by lockSwap)
+func (s *logStore) UnfinishedSwapOnChannel(channelId, exceptId string) (string, error) {
+	if cs, ok := s.real.(interface {
+		UnfinishedSwapOnChannel(channelId, exceptId string) (string, error)
+	}); ok {
+		return cs.UnfinishedSwapOnChannel(channelId, exceptId)
+	}
+	return "", nil
+}
 func (s *logStore) GetData(id string) (*swap.SwapStateMachine, error) { return s.real.GetData(id) }
 func (s *logStore) ListAll() ([]*swap.SwapStateMachine, error)        { return s.real.ListAll() }
 func (s *logStore) ListAllByPeer(p string) ([]*swap.SwapStateMachine, error) {
@@ -218,14 +228,14 @@ func (w *World) project(sm *swap.SwapStateMachine) Ev {
 	ev["has_req"] = d.SwapInRequest != nil || d.SwapOutRequest != nil
 	ev["has_agr"] = d.SwapInAgreement != nil || d.SwapOutAgreement != nil
 	ev["both_types"] = (d.SwapInRequest != nil || d.SwapInAgreement != nil) && (d.SwapOutRequest != nil || d.SwapOutAgreement != nil)
-	ev["premium"] = d.GetPremium()
+	ev["premium"] = clampI64(d.GetPremium())
 	lim := int64(0)
 	if d.SwapInRequest != nil {
 		lim = d.SwapInRequest.PremiumLimit
 	} else if d.SwapOutRequest != nil {
 		lim = d.SwapOutRequest.PremiumLimit
 	}
-	ev["limit"] = lim
+	ev["limit"] = clampI64(lim)
 	ev["start"] = d.StartingBlockHeight
 	ev["start_set"] = d.StartingBlockHeightSet
 	ev["otb"] = d.OpeningTxBroadcasted != nil
@@ -358,6 +368,21 @@ func (w *World) StartNode(recoverSwaps bool) string {
 		w.Emit("timer.arm", Ev{"sid": w.Peer.Label(id), "due": w.Now + int64(dur/time.Minute), "now": w.Now})
 	})
 	if recoverSwaps {
+		return w.RecoverNode()
+	}
+	return ""
+}
+
+// RecoverNode is what the daemon does after Start(): SafeUpgrade, then RecoverSwaps.
+func (w *World) RecoverNode() string {
+	d := w.disk()
+	n := w.Node
+	n.recovered = true
+	real, err := swap.NewBboltStore(d.db)
+	if err != nil {
+		return err.Error()
+	}
+	{
 		vs, err := version.NewVersionService(d.db)
 		if err != nil {
 			return err.Error()
